@@ -262,3 +262,244 @@ def honest_public_values(rep, A):
     except KeyError:
         rep.fail("anchor", "PayProofPublicValues fields", "unexpected public-value fields %s" % [f["n"] for f in fs])
         return None
+
+
+# ------------------------------------------------------------------ message layouts
+NONCE = ZA + "::nonce::Nonce"
+CHANNELID = ZA + "::states::ChannelId"
+CUSTBAL = ZA + "::states::CustomerBalance"
+MERCHBAL = ZA + "::states::MerchantBalance"
+REVLOCK = ZA + "::revlock::RevocationLock"
+REVPAIR = ZA + "::revlock::RevocationPair"
+CLOSE_CONST = ZA + "::CLOSE_SCALAR"
+
+
+def layouts(rep):
+    """Slot layout of State::to_message and CloseState::to_message: list of roles per slot, computed
+    from the encoders (`to_scalar` / `as_scalar`) applied to the public accessors."""
+    prog = rep.prog
+    key = ("layouts", id(prog))
+    if key in _cache:
+        return _cache[key]
+    out = {}
+    need = {"State::to_message": method(prog, STATE, "to_message"), "CloseState::to_message": method(prog, CLOSESTATE, "to_message"),
+            "ChannelId::to_scalar": method(prog, CHANNELID, "to_scalar"), "Nonce::as_scalar": method(prog, NONCE, "as_scalar"),
+            "CustomerBalance::to_scalar": method(prog, CUSTBAL, "to_scalar"), "MerchantBalance::to_scalar": method(prog, MERCHBAL, "to_scalar"),
+            "RevocationLock::to_scalar": method(prog, REVLOCK, "to_scalar")}
+    for n, b in need.items():
+        if not rep.anchor(n, b):
+            _cache[key] = None
+            return None
+        rep.fn(b)
+    for which, adt in (("state", STATE), ("close", CLOSESTATE)):
+        S = Session(prog)
+        tm = need["State::to_message" if which == "state" else "CloseState::to_message"]
+        mv = S.call(tm, [("st",)])
+        vec = msg_vec(S, mv) if mv is not None else None
+        cv = S.canon(vec) if vec is not None else None
+        if cv is None or cv[0] != "array":
+            rep.fail("layout", which, "%s::to_message is not a fixed tuple of scalars: %s" % (adt.split("::")[-1], S.show(vec) if vec else None), site=tm.loc())
+            _cache[key] = None
+            return None
+        enc = {}
+        acc = {}
+        for nm in ("channel_id", "customer_balance", "merchant_balance"):
+            m = method(prog, adt, nm)
+            if not rep.anchor("%s::%s" % (adt.split("::")[-1], nm), m):
+                _cache[key] = None
+                return None
+            acc[nm] = S.call(m, [("st",)])
+        enc["cid"] = S.canon(S.call(need["ChannelId::to_scalar"], [acc["channel_id"]]))
+        enc["cust"] = S.canon(S.call(need["CustomerBalance::to_scalar"], [acc["customer_balance"]]))
+        enc["merch"] = S.canon(S.call(need["MerchantBalance::to_scalar"], [acc["merchant_balance"]]))
+        lockm = method(prog, adt, "revocation_lock")
+        if rep.anchor("%s::revocation_lock" % adt.split("::")[-1], lockm):
+            enc["lock"] = S.canon(S.call(need["RevocationLock::to_scalar"], [S.call(lockm, [("st",)])]))
+        if which == "state":
+            nm_ = method(prog, STATE, "nonce")
+            if rep.anchor("State::nonce", nm_):
+                enc["nonce"] = S.canon(S.call(need["Nonce::as_scalar"], [S.call(nm_, [("st",)])]))
+        else:
+            enc["close"] = ("const", CLOSE_CONST)
+        slots = []
+        for e in cv[1]:
+            r = [k for k, v in enc.items() if v == e]
+            slots.append(r[0] if len(r) == 1 else "?")
+        out[which] = slots
+        out[which + "_n"] = len(slots)
+    _cache[key] = out
+    return out
+
+
+def substitute_challenge(S, t):
+    """Replace the (unique) derived challenge scalar by the opaque symbol ('chal',)."""
+    frs = [x for x in collect_heads(S, t, "from_raw") if depends_on(S, x, "digest")]
+    sub = {x: ("chal",) for x in frs}
+    return S.eng.subst(t, sub), len(set(S.canon(x) for x in frs))
+
+
+# ------------------------------------------------------------------ role binding for the zkAbacus proofs
+def srp_cp_index(prog):
+    r = [i for i, f in enumerate(adt_fields(prog, SRP)) if f["t"][0] == "adt" and f["t"][1] == CP]
+    return r[0] if len(r) == 1 else None
+
+
+def sp_indices(prog):
+    cpi = [i for i, f in enumerate(adt_fields(prog, SP)) if f["t"][0] == "adt" and f["t"][1] == CP]
+    bsi = [i for i, f in enumerate(adt_fields(prog, SP)) if f["t"][0] == "adt" and f["t"][1] == BSIG]
+    return (cpi[0] if len(cpi) == 1 else None, bsi[0] if len(bsi) == 1 else None)
+
+
+def bind_fields(rep, A):
+    """Classify the direct fields of the proof struct from the honest prover's output:
+       SRP fields -> 'state' | 'close' (which message they commit to), Scalar fields -> revealed
+       commitment scalar of (proof, slot), other sub-proofs by type (+ which balance a range
+       constraint is linked to).  Returns dict or None."""
+    if hasattr(A, "bound"):
+        return A.bound
+    prog = rep.prog
+    prover(rep, A)
+    A.bound = None
+    if A.P is None or A.P[0] != "struct":
+        rep.fail("roles", A.name, "%s::new does not return a plain aggregate" % A.name, site=A.new.loc())
+        return None
+    S = A.SP
+    lay = layouts(rep)
+    cr = commitment_proof_roles(rep)
+    if lay is None or cr is None:
+        return None
+    roles = cr["proof"]
+    P, _ = substitute_challenge(S, A.P)
+    fs = adt_fields(prog, A.adt)
+    cpi = srp_cp_index(prog)
+    st = A.prover_args["state"]
+    tm_s, tm_c, cs_m = method(prog, STATE, "to_message"), method(prog, CLOSESTATE, "to_message"), method(prog, STATE, "close_state")
+    sm = S.canon(msg_vec(S, S.call(tm_s, [st])))
+    cm = S.canon(msg_vec(S, S.call(tm_c, [S.call(cs_m, [st])])))
+    msgs = {"state": sm, "close": cm}
+    if A.name == "PayProof":
+        msgs["old"] = S.canon(msg_vec(S, S.call(tm_s, [A.prover_args["old_state"]])))
+    out = {"srp": {}, "kappa": {}, "other": {}}
+    srp_vals = {}
+    for i, f in enumerate(fs):
+        t = f["t"]
+        v = P[3][i]
+        if t[0] == "adt" and t[1] == SRP:
+            C = S.alg.poly(com_element(S, S.eng.proj_field(S.eng.proj_field(v, cpi), roles["C"])))
+            nonce_atom = sm[1][lay["state"].index("nonce")]
+            close_atom = ("const", CLOSE_CONST)
+            has_nonce = any(nonce_atom in [a for a, _ in m] for m in C)
+            has_close = any(close_atom in [a for a, _ in m] for m in C)
+            which = "state" if has_nonce and not has_close else ("close" if has_close and not has_nonce else None)
+            if which is None or which in out["srp"]:
+                rep.fail("roles", "%s.%s" % (A.name, f["n"]), "cannot tell whether sub-proof `%s` is about the state or the close state" % f["n"], site=A.new.loc())
+                return None
+            out["srp"][which] = i
+            srp_vals[which] = v
+        elif t[0] == "adt" and t[1] == SP:
+            out["other"]["token"] = i
+        elif t[0] == "adt" and t[1] == CP:
+            out["other"]["revlock"] = i
+        elif t[0] == "adt" and t[1] == RC:
+            out["other"].setdefault("ranges", []).append(i)
+    if set(out["srp"]) != {"state", "close"}:
+        rep.fail("roles", A.name + ".sub-proofs", "did not find exactly one state and one close-state request proof", site=A.new.loc())
+        return None
+    # revealed commitment scalars: kappa such that  rs_j = c*m_j + kappa  for a sub-proof's slot j
+    cands = {"close": (S.eng.proj_field(S.eng.proj_field(srp_vals["close"], cpi), roles["rs"]), cm),
+             "state": (S.eng.proj_field(S.eng.proj_field(srp_vals["state"], cpi), roles["rs"]), sm)}
+    if A.name == "PayProof" and "token" in out["other"]:
+        tcpi, _ = sp_indices(prog)
+        tv = P[3][out["other"]["token"]]
+        cands["old"] = (S.eng.proj_field(S.eng.proj_field(tv, tcpi), roles["rs"]), msgs["old"])
+    for i, f in enumerate(fs):
+        if ty_str(f["t"]) != "Scalar":
+            continue
+        v = P[3][i]
+        hit = []
+        for pname, (rs, mv) in cands.items():
+            for j in range(len(mv[1])):
+                rj = S.eng.index_value(rs if rs[0] != "box" else rs[1], ("int", j))
+                d = S.alg.poly(("sub", ("sub", rj, ("mul", ("chal",), mv[1][j])), v))
+                if d.is_zero():
+                    hit.append((pname, j))
+        # equal slots of state/close share their commitment scalar: prefer the canonical (proof, slot) list
+        if not hit:
+            rep.fail("roles", "%s.%s" % (A.name, f["n"]), "revealed scalar `%s` is not the commitment scalar of any sub-proof slot in %s::new" % (f["n"], A.name), site=A.new.loc())
+            return None
+        out["kappa"][i] = hit
+    A.bound = out
+    A.msgs = msgs
+    return out
+
+
+def fs_rule_one(rep, A):
+    """FS + prover/verifier agreement for one proof (same rule as in C12, restricted)."""
+    class Only:
+        def __init__(self, rep):
+            self.__dict__["rep"] = rep
+
+        def __getattr__(self, k):
+            return getattr(self.rep, k)
+    prog = rep.prog
+    # reuse fs_rule but filter to this proof by temporarily analysing only it
+    saved = dict(_cache)
+    try:
+        other = "pay" if A.name == "EstablishProof" else "est"
+        _cache[(other, id(prog))] = None
+        fs_rule(rep, rep.pid)
+    finally:
+        for k in list(_cache):
+            if k[0] in ("est", "pay") and k not in saved:
+                del _cache[k]
+        _cache.update(saved)
+
+
+def statement_binding(rep, A, which):
+    """INFL: statement components that appear in no equation must reach the challenge hash."""
+    prog = rep.prog
+    S = A.S
+    if A.items is None:
+        return
+    absorbed = set(flat_atoms(A.items))
+    pkr = public_key_roles(rep)
+    pkm = method(prog, MCFG, "signing_keypair")
+    kpk = method(prog, KP, "public_key")
+    if pkr is None or pkm is None or kpk is None:
+        return
+    pk = S.call(kpk, [S.call(pkm, [arg(2)])])
+    checks = []
+    if "key" in which:
+        for r in ("g1", "g2", "x2"):
+            checks.append(("key." + r, S.canon(("bytes", fld(pk, pkr[r])))))
+        for r in ("y1s", "y2s"):
+            checks.append(("key." + r, S.canon(("bytes", ("E", S.canon(fld(pk, pkr[r])))))))
+    pvadt = strip_refs(A.ver.locals[3])[1]
+    fsn = {f["n"]: i for i, f in enumerate(adt_fields(prog, pvadt))}
+    enc = {"cid": ("channel_id", CHANNELID, "to_scalar"), "cust": ("customer_balance", CUSTBAL, "to_scalar"),
+           "merch": ("merchant_balance", MERCHBAL, "to_scalar"), "nonce": ("old_nonce", NONCE, "as_scalar")}
+    for w in which:
+        if w in enc:
+            fname, adt, fn = enc[w]
+            if fname not in fsn:
+                rep.fail("statement-binding", A.name + "." + w, "public value `%s` is missing from %s" % (fname, pvadt))
+                continue
+            m = method(prog, adt, fn)
+            checks.append((w, S.canon(("bytes", S.call(m, [fld(arg(3), fsn[fname])])))))
+    if "ctx" in which:
+        cm = method(prog, CONTEXT, "as_bytes")
+        if rep.anchor("Context::as_bytes", cm):
+            checks.append(("context", S.canon(S.call(cm, [arg(4)]))))
+    if "range-params" in which:
+        rpm = method(prog, MCFG, "range_constraint_parameters")
+        if rep.anchor("merchant::Config::range_constraint_parameters", rpm):
+            rp = S.call(rpm, [arg(2)])
+            for term, lt, path in type_leaves(prog, ("adt", RCP, ()), rp):
+                checks.append(("range-params." + leaf_name(prog, path), S.canon(("bytes", term))))
+    for name, want in checks:
+        if want in absorbed:
+            rep.ok("statement-binding", A.name + "/" + name, sample="%s reaches the challenge hash" % name)
+        else:
+            rep.fail("statement-binding", A.name + "/" + name,
+                     "statement component `%s` never reaches the challenge hash of %s::verify: replacing it cannot change the challenge" % (name, A.name),
+                     site=A.ver.loc())
